@@ -1,4 +1,5 @@
 import Ypv.Lemmas.Order
+import Ypv.Lemmas.EvalKwLoc
 /-!
 # C01 — query results equal the documented segment semantics
 -/
@@ -63,6 +64,61 @@ theorem required_eq_select : ∀ (segs : List ESeg) (r : Res),
         · simp only [required, stepRes]
           rw [stepSeg_children mt dsc rt s rest n c hm ht, ihf]
           cases s <;> simp_all [select]
+
+/-- **A keyword segment selects what `kwSearch` says** (`KeywordSearches.search_matches`, whose
+specification is `Spec` of C13 — `Props/C13.lean`: `max_eq_spec`, `unique_eq_spec`, `parent_eq_spec`, …):
+it raises what `kwSearch` raises; `[name()]` yields the node's own reference as a scalar with the
+node's coordinates; otherwise the results carry exactly the addresses `kwSearch` returns, in that
+order (or the step is out of model: an address that is neither the node, a child nor an ancestor
+below the root). -/
+theorem keyword_selects_kwSearch (inv : Bool) (k : Keyword) (p : Str) (n : Node) (c : Ctx) :
+    match kwSearch n c.addr inv k p with
+    | .error e => children mt dsc rt (.keyword inv k p) n c = Gen.fail e
+    | .ok (.name _) => children mt dsc rt (.keyword inv k p) n c = Gen.one (.real (prefNode c.pref, c))
+    | .ok (.nodes as) =>
+        children mt dsc rt (.keyword inv k p) n c = Gen.fail .outOfModel
+        ∨ ((children mt dsc rt (.keyword inv k p) n c).2 = none
+            ∧ (children mt dsc rt (.keyword inv k p) n c).1.map W1.resAddr = as) := by
+  simp only [children, kwStep]
+  cases hs : kwSearch n c.addr inv k p with
+  | error e => rfl
+  | ok o =>
+    cases o with
+    | name r => rfl
+    | nodes as =>
+      simp only []
+      cases hr : kwResolveAll rt n c as with
+      | none => left; rfl
+      | some l =>
+        right
+        refine ⟨rfl, ?_⟩
+        simp only [Gen.map, Gen.ofList, List.map_map]
+        have := W1.kwResolveAll_addrs hr
+        simpa [Function.comp_def, W1.resAddr] using this
+
+/-- … and at a located node of the document the nodes returned are the very nodes at those
+addresses (a child of the node, the node itself, or its ancestor). -/
+theorem keyword_results_at_addresses {d n : Node} {c : Ctx} (hl : Loc d n c) (inv : Bool) (k : Keyword) (p : Str)
+    (as : List Addr) (hs : kwSearch n c.addr inv k p = .ok (.nodes as)) :
+    ∀ r ∈ (children mt dsc d (.keyword inv k p) n c).1, ∃ x, r = .real x ∧ d.get? x.2.addr = some x.1 := by
+  intro r hr
+  simp only [children, kwStep, hs] at hr
+  cases hra : kwResolveAll d n c as with
+  | none => rw [hra] at hr; simp [Gen.fail, Gen.map] at hr
+  | some l =>
+    rw [hra] at hr
+    simp only [Gen.map, Gen.ofList, List.mem_map] at hr
+    obtain ⟨x, hx, rfl⟩ := hr
+    obtain ⟨a, _, ha⟩ := W1.kwResolveAll_mem hra x hx
+    exact ⟨x, rfl, W1.kwResolve_get hl ha⟩
+
+/-- `[parent()]` after a key: the model climbs to the hash (kernel-checked instance of the larger
+fragment of `required_eq_select`). -/
+example : (select (fun _ _ _ => .ok true) Desc.none
+      (.map none [(.str ['a'], .map none [(.str ['b'], .scalar none (.int 1))])])
+      [.key ['a'], .key ['b'], .keyword false .parent ['2']]
+      (.real (.map none [(.str ['a'], .map none [(.str ['b'], .scalar none (.int 1))])], Ctx.root))).1.map W1.resAddr
+    = [[]] := by decide +kernel
 
 /-- `Processor.get_nodes(path, mustexist=True)` delivers `Spec.select` of the path on the document
 (nothing for a null document), and raises "unmatched" after an empty selection. -/
